@@ -356,3 +356,38 @@ func InCycle(b *ssa.BasicBlock) bool {
 	}
 	return false
 }
+
+// LoopHeader returns the innermost natural-loop header whose loop contains b (a dominator of b that is the target
+// of a back edge from a block it dominates, with b able to reach it again), or nil.
+func LoopHeader(b *ssa.BasicBlock) *ssa.BasicBlock {
+	for d := b; d != nil; d = d.Idom() {
+		for _, p := range d.Preds {
+			if d.Dominates(p) && reaches(b, p, d) {
+				return d
+			}
+		}
+	}
+	return nil
+}
+
+// reaches reports whether `to` is reachable from `from` without passing through `avoid` (from==to counts).
+func reaches(from, to, avoid *ssa.BasicBlock) bool {
+	if from == to {
+		return true
+	}
+	seen := map[*ssa.BasicBlock]bool{}
+	stack := []*ssa.BasicBlock{from}
+	for len(stack) > 0 {
+		x := stack[len(stack)-1]
+		stack = stack[:len(stack)-1]
+		if x == to {
+			return true
+		}
+		if seen[x] || (x == avoid && x != from) {
+			continue
+		}
+		seen[x] = true
+		stack = append(stack, x.Succs...)
+	}
+	return false
+}
